@@ -184,5 +184,13 @@ func obsCase(e error, refs []error) SX {
 			}
 			return L(out...)
 		})),
+		L(Sym("h1isanyx"), onHop(h1, ok1, func(h error) SX {
+			var out []SX
+			for i := 0; i < 4 && i < len(refs); i++ {
+				out = append(out, Bool(errors.IsAny(h, refs[i])))
+			}
+			out = append(out, Bool(errors.IsAny(h, refs[:len(refs)/2]...)))
+			return L(out...)
+		})),
 	)
 }
